@@ -157,6 +157,34 @@ func renderJSON(b *bytes.Buffer, v any, ko *KeyOrder, ind int, pretty bool) {
 // defects); in YAML it is emitted as a flow scalar.
 type RawJSON string
 
+// RenderYAMLCRLF is RenderYAML with multi-line strings as block scalars ("|-")
+// and every line terminated by CRLF, as a Windows editor would save the file.
+func RenderYAMLCRLF(v any, ko *KeyOrder) []byte {
+	yamlBlockScalars = true
+	b := RenderYAML(v, ko)
+	yamlBlockScalars = false
+	return bytes.ReplaceAll(b, []byte("\n"), []byte("\r\n"))
+}
+
+var yamlBlockScalars bool
+
+// blockScalar renders s as a literal block scalar if it is a plain multi-line text.
+func blockScalar(s string, ind int) (string, bool) {
+	if !yamlBlockScalars || !strings.Contains(s, "\n") || strings.HasSuffix(s, "\n") || strings.ContainsAny(s, "\r\t") {
+		return "", false
+	}
+	lines := strings.Split(s, "\n")
+	pad := strings.Repeat("  ", ind+1)
+	out := "|-\n"
+	for _, l := range lines {
+		if l == "" || l[0] == ' ' {
+			return "", false
+		}
+		out += pad + l + "\n"
+	}
+	return out, true
+}
+
 // RenderYAML emits block-style YAML (strings double quoted, so that every JSON
 // string is a valid YAML scalar).
 func RenderYAML(v any, ko *KeyOrder) []byte {
@@ -252,6 +280,13 @@ func renderYAML(b *bytes.Buffer, v any, ko *KeyOrder, ind int, inline bool) {
 			}
 			b.WriteString(yamlKey(x[j].K))
 			b.WriteByte(':')
+			if str, isStr := x[j].V.(string); isStr {
+				if bs, ok := blockScalar(str, ind); ok {
+					b.WriteByte(' ')
+					b.WriteString(bs)
+					continue
+				}
+			}
 			if s, ok := yamlScalar(x[j].V); ok {
 				b.WriteByte(' ')
 				b.WriteString(s)
